@@ -233,4 +233,21 @@ theorem identity_injective (vs ws : List Str) (hl : vs.length = Generated.LarkCa
 example : Shape.Plain "data/grammar.lark".toList ∧ Shape.Plain ['1', '7', '.', '2', '5'] ∧ Generated.LarkCache.treeIdentity.length = 5 := by
   refine ⟨?_, ?_, by decide⟩ <;> simp [Shape.Plain]
 
+/-- The cache file of a module (`<module path>-<md5 of str(identity)>.json`) is shared by two runs only if all five identity
+    components agree — under exactly one hypothesis about md5: it has no collision among tree-cache identity texts
+    (`Md5CollisionFreeOnIdentities`); nothing else about md5 is used. -/
+theorem cache_file_injective (md5 : Str → Str) (hmd5 : Shape.Md5CollisionFreeOnIdentities md5) (key ext : Str)
+    (vs ws : List Str) (hl : vs.length = Generated.LarkCache.treeIdentity.length)
+    (hl' : ws.length = Generated.LarkCache.treeIdentity.length) (hv : ∀ v ∈ vs, Shape.Plain v) (hw : ∀ w ∈ ws, Shape.Plain w)
+    (h : Shape.cacheFileName md5 key ext (Shape.treeIdentityOf vs) = Shape.cacheFileName md5 key ext (Shape.treeIdentityOf ws)) :
+    vs = ws := by
+  unfold Shape.cacheFileName at h
+  have h1 := List.append_cancel_left h
+  simp only [List.cons.injEq, true_and] at h1
+  have h2 := List.append_cancel_right h1
+  exact identity_injective vs ws hl hl' hv hw (hmd5 vs ws hl hl' hv hw h2)
+
+/-- non-vacuity: the identity function is collision free -/
+example : Shape.Md5CollisionFreeOnIdentities id := fun _ _ _ _ _ _ h => h
+
 end Tranp.C15
